@@ -1,6 +1,7 @@
 package main
 
 import (
+	"encoding/json"
 	"fmt"
 	"github.com/ovn-org/libovsdb/ovsdb"
 	"strings"
@@ -15,7 +16,8 @@ func init() { drivers["C03"] = driveC03 }
 
 func c03Schema() dyn.Schema {
 	cols := append(c08Cols(), val.Col{Name: "r2", K: 'a', KT: 'r'}, val.Col{Name: "im", K: 'a', KT: 's', Immutable: true},
-		val.Col{Name: "msi", K: 'm', KT: 's', VT: 'i', Max: -1}, val.Col{Name: "or", K: 'o', KT: 'r'}, val.Col{Name: "ob", K: 'o', KT: 'b'})
+		val.Col{Name: "msi", K: 'm', KT: 's', VT: 'i', Max: -1}, val.Col{Name: "or", K: 'o', KT: 'r'}, val.Col{Name: "ob", K: 'o', KT: 'b'},
+		val.Col{Name: "ims", K: 's', KT: 's', Max: -1, Immutable: true}, val.Col{Name: "imm", K: 'm', KT: 's', VT: 's', Max: -1, Immutable: true})
 	return dyn.Schema{Name: "C03", Tables: []dyn.Table{
 		{Name: "T", Cols: cols, IsRoot: true},
 		{Name: "R", Cols: []val.Col{{Name: "name", K: 'a', KT: 's'}, {Name: "n", K: 'a', KT: 'i'}, {Name: "ss", K: 's', KT: 's', Max: -1}}, IsRoot: true},
@@ -326,5 +328,110 @@ func c03Regressions(o opts, g *gen.G, syms *val.Syms, w *emit.Writer) error {
 		}
 		report(rc.name, failure)
 	}
+	return c03Immutable(syms, w)
+}
+
+// emitHistory runs the transactions on a fresh database and emits them as one correspondence case (Txn.mk); the direct
+// oracle sees every transaction with the state before it.
+func emitHistory(w *emit.Writer, syms *val.Syms, sc dyn.Schema, key string, txns [][]TOp,
+	oracle func(ti int, ops []TOp, before map[string]map[string]map[string]val.Val, ob tObs) string) error {
+	lab, err := newTxnLab(sc)
+	if err != nil {
+		return err
+	}
+	var txnTerms []string
+	var txnJ []interface{}
+	failure := ""
+	st, _, _ := lab.state()
+	for ti, ops := range txns {
+		ob := lab.run(ops)
+		if ob.Panic != "" && failure == "" {
+			failure = fmt.Sprintf("transaction %d: panic: %s", ti, ob.Panic)
+		}
+		if failure == "" && oracle != nil {
+			if msg := oracle(ti, ops, st, ob); msg != "" {
+				failure = fmt.Sprintf("transaction %d: %s", ti, msg)
+			}
+		}
+		st = ob.State
+		var opTerms []string
+		var opJ []interface{}
+		for _, op := range ops {
+			opTerms = append(opTerms, op.coqNamed(syms))
+			opJ = append(opJ, op.json())
+			w.Count("op:" + op.Kind)
+		}
+		txnTerms = append(txnTerms, fmt.Sprintf("([%s],\n     %s)", strings.Join(opTerms, ";\n      "), lab.coqObs(syms, ob)))
+		txnJ = append(txnJ, map[string]interface{}{"ops": opJ, "observed": jsonObs(ob)})
+	}
+	term := fmt.Sprintf("Txn.mk (%s)\n   [%s]", dyn.CoqSchema(syms, sc), strings.Join(txnTerms, ";\n    "))
+	w.Count("history:" + key)
+	w.Add(emit.Case{Term: term, JSON: map[string]interface{}{"history": key, "schema": sc.JSON(), "transactions": txnJ}, Key: "history:" + key,
+		Nontrivial: true, Class: "history", Oracle: failure})
 	return nil
+}
+
+// c03Immutable: "immutable columns can be set on insert and are never changed afterwards" - every way to write one
+// (update; mutate insert / delete with a set, a map, a set of keys, one bare key) on atom, set and map columns, each in
+// a transaction of its own: refused when it would change the row, and the row stays as it was.
+func c03Immutable(syms *val.Syms, w *emit.Writer) error {
+	u := gen.UUIDn(21)
+	byU := []Cond{{Col: "_uuid", Fn: "==", Arg: val.VA(val.Uuid(u))}}
+	a, b, c := val.Str("a"), val.Str("b"), val.Str("c")
+	ims := val.Val{K: 's', Set: []val.Atom{a, b}}
+	imm := val.Val{K: 'm', Map: [][2]val.Atom{{a, val.Str("va")}, {b, val.Str("vb")}}}
+	mut := func(m Mut) []TOp { return []TOp{{Kind: "mutate", Table: "T", Where: byU, Muts: []Mut{m}}} }
+	upd := func(col string, v val.Val) []TOp {
+		return []TOp{{Kind: "update", Table: "T", Where: byU, Row: map[string]val.Val{col: v}}}
+	}
+	type step struct {
+		ops    []TOp
+		change bool // the operation would change the row
+	}
+	steps := []step{
+		{[]TOp{{Kind: "insert", Table: "T", UUID: u, Row: map[string]val.Val{"name": val.VA(val.Str("imrow")), "im": val.VA(val.Str("x")), "ims": ims, "imm": imm}}}, false},
+		{upd("im", val.VA(val.Str("y"))), true},
+		{upd("im", val.VA(val.Str("x"))), false},
+		{upd("ims", val.Val{K: 's', Set: []val.Atom{a}}), true},
+		{upd("ims", ims), false},
+		{upd("imm", val.Val{K: 'm', Map: [][2]val.Atom{{a, val.Str("other")}, {b, val.Str("vb")}}}), true},
+		{upd("imm", imm), false},
+		{mut(Mut{Col: "ims", Mutator: "insert", Arg: val.Val{K: 's', Set: []val.Atom{c}}}), true},
+		{mut(Mut{Col: "ims", Mutator: "insert", Arg: val.Val{K: 's', Set: []val.Atom{c}}, Single: true}), true},
+		{mut(Mut{Col: "ims", Mutator: "delete", Arg: val.Val{K: 's', Set: []val.Atom{a}}}), true},
+		{mut(Mut{Col: "ims", Mutator: "delete", Arg: val.Val{K: 's', Set: []val.Atom{b}}, Single: true}), true},
+		{mut(Mut{Col: "imm", Mutator: "insert", Arg: val.Val{K: 'm', Map: [][2]val.Atom{{c, val.Str("vc")}}}}), true},
+		{mut(Mut{Col: "imm", Mutator: "delete", Arg: val.Val{K: 'm', Map: [][2]val.Atom{{a, val.Str("va")}}}}), true},
+		{mut(Mut{Col: "imm", Mutator: "delete", Arg: val.Val{K: 's', Set: []val.Atom{a, b}}}), true},
+		{mut(Mut{Col: "imm", Mutator: "delete", Arg: val.Val{K: 's', Set: []val.Atom{a}}}), true},
+		{mut(Mut{Col: "imm", Mutator: "delete", Arg: val.Val{K: 's', Set: []val.Atom{b}}, Single: true}), true},
+		{[]TOp{{Kind: "select", Table: "T", Where: byU}}, false},
+	}
+	var txns [][]TOp
+	for _, s := range steps {
+		txns = append(txns, s.ops)
+	}
+	return emitHistory(w, syms, c03Schema(), "immutable columns", txns,
+		func(ti int, ops []TOp, before map[string]map[string]map[string]val.Val, ob tObs) string {
+			if ti == 0 {
+				if !ob.Committed {
+					return "the insert that sets the immutable columns is refused"
+				}
+				return ""
+			}
+			for _, col := range []string{"im", "ims", "imm"} {
+				if x, y := before["T"][u][col], ob.State["T"][u][col]; x.Key() != y.Key() {
+					return fmt.Sprintf("%s changes immutable column %s from %s to %s (committed=%v)", describeOp(ops[0]), col, x.Key(), y.Key(), ob.Committed)
+				}
+			}
+			if steps[ti].change && ob.Committed {
+				return fmt.Sprintf("%s is accepted although it names a change of an immutable column", describeOp(ops[0]))
+			}
+			return ""
+		})
+}
+
+func describeOp(op TOp) string {
+	b, _ := json.Marshal(op.json())
+	return string(b)
 }
